@@ -11,7 +11,7 @@ SPEC = {
     "claim": {
         "category": "exploration",
         "technique": "stateful generation (rapidcheck byte-decoded histories, libFuzzer) mixing designed-to-fail operations with successful ones; after each throwing step all objects are compared with their pre-step model and the allocation registry must be unchanged",
-        "text": "Generated histories over strings, buffers of all widths and streams in both storage modes apply about 30 kinds of operations built to throw (malformed text in every width through set/=/+=/+/constructors, invalid code points, Latin-1 range, corrupted hex/base64, bad format strings, malformed wide text into streams, to_string on invalid bytes, at() out of range) between successful ones; after every throwing step the target, lvalue and rvalue arguments and all bystanders must be byte-identical to before, nothing may be leaked or freed twice, and the objects keep being used. Both tiers run a second build with an unsigned plain char (-funsigned-char; a reduced number of generated cases and no enumerators in the quick tier).",
+        "text": "Generated histories over strings, buffers of all widths and streams in both storage modes apply about 30 kinds of operations built to throw (malformed text in every width through set/=/+=/+/constructors, invalid code points, Latin-1 range, corrupted hex/base64, bad format strings, malformed wide text into streams, to_string on invalid bytes, at() out of range) between successful ones; after every throwing step the target, lvalue and rvalue arguments and all bystanders must be byte-identical to before, nothing may be leaked or freed twice, and the objects keep being used. Both tiers run a second build with an unsigned plain char (-funsigned-char; a reduced number of generated cases and no enumerators in the quick tier). A leak is a live block that none of the objects owns (a failed insertion may have grown an object's capacity).",
         "level_note": "Sampled histories (<= 50 steps, 12 objects). Only exceptions of the four named types are in scope; std::bad_alloc is C19.",
     },
 }
